@@ -28,6 +28,8 @@ pub struct VerifState {
     pub pid_pubcomp: Vec<u64>,
     pub need_store: bool,
     pub new_session_at_connect: bool,
+    pub need_store_before_connect: bool,
+    pub established: bool,
     /// serialised stored packets, in store order
     pub store: Vec<Vec<u8>>,
     pub offline_publish: bool,
@@ -84,6 +86,8 @@ where
             pid_pubcomp,
             need_store,
             new_session_at_connect,
+            need_store_before_connect,
+            established,
             store,
             offline_publish,
             auto_pub_response,
@@ -129,6 +133,8 @@ where
             pid_pubcomp: sorted_ids(pid_pubcomp),
             need_store: *need_store,
             new_session_at_connect: *new_session_at_connect,
+            need_store_before_connect: *need_store_before_connect,
+            established: *established,
             store: store
                 .get_stored()
                 .iter()
@@ -184,6 +190,8 @@ where
             pid_pubcomp: self.pid_pubcomp.clone(),
             need_store: self.need_store,
             new_session_at_connect: self.new_session_at_connect,
+            need_store_before_connect: self.need_store_before_connect,
+            established: self.established,
             store: self.store.clone(),
             offline_publish: self.offline_publish,
             auto_pub_response: self.auto_pub_response,
